@@ -1519,12 +1519,18 @@ namespace bloch::compiler {
                 if (*right == 0)
                     throw BlochError(ErrorCategory::Semantic, bin->line, bin->column,
                                      "division by zero in constant integer expression");
+                // The minimum int divided by -1 does not fit in an int and traps natively.
+                if (*right == -1 && *left == std::numeric_limits<int>::min())
+                    return std::nullopt;
                 return *left / *right;
             }
             if (bin->op == "%") {
                 if (*right == 0)
                     throw BlochError(ErrorCategory::Semantic, bin->line, bin->column,
                                      "modulo by zero in constant integer expression");
+                // x % -1 is always 0; computing it natively traps for the minimum int.
+                if (*right == -1)
+                    return 0;
                 return *left % *right;
             }
             return std::nullopt;
